@@ -252,6 +252,9 @@ def _check_small(o, path="$"):
     raise TLCError("bad type at %s: %r" % (path, type(o)))
 
 
+_in_selftest = [False]
+
+
 def run_batch(module, cases, tag="V", nproc=8, timeout=3600, env=None, chunk_min=1, constants=None, heap="2g"):
     """Evaluate `cases` (list of JSON-able dicts, small ints only) with the batch module spec/<module>.tla.
     The module reads IOEnv.TRACE_FILE, walks the cases with one TLC step each and PrintT's <<tag, k, ...>>.
@@ -289,6 +292,18 @@ def run_batch(module, cases, tag="V", nproc=8, timeout=3600, env=None, chunk_min
         verdicts.sort(key=lambda v: v[1])
         stats = dict(states=sum(r["states"] for _, r in parts), distinct=sum(r["distinct"] for _, r in parts),
                      wall=time.time() - t0)
+        if os.environ.get("VERIF_SELFTEST", "1") != "0" and not _in_selftest[0]:
+            from . import selftest
+            def runner(cs):
+                _in_selftest[0] = True
+                try:
+                    return run_batch(module, cs, tag=tag, nproc=1, timeout=timeout, env=env, constants=constants, heap=heap)[0]
+                finally:
+                    _in_selftest[0] = False
+            try:
+                selftest.after_batch(module, cases, verdicts, runner)
+            except TLCError as e:   # a corrupted case that makes TLC itself fail counts as rejected
+                selftest.RESULTS[module] = {"corrupted": selftest.RESULTS.get(module, {}).get("corrupted", 0), "rejected": "TLC error (rejected)"}
         return verdicts, stats
     finally:
         shutil.rmtree(tmp, ignore_errors=True)
